@@ -255,6 +255,30 @@ def coq_eval(name: str, imports: str, exprs: list[str], defs: str = "", shard=20
 
 # ---------------------------------------------------------------------------- reporting
 
+def run_coqchk(prop_id, timeout=2400):
+    """Re-check Props/<id>.vo and everything it depends on with the independent checker; list the axioms it reports."""
+    cmd = ["coqchk", "-silent", "-o", "-Q", ".", "TinyGP", f"TinyGP.Props.{prop_id}"]
+    t0 = time.time()
+    try:
+        with Lock():
+            p = subprocess.run(cmd, cwd=str(COQ), stdout=subprocess.PIPE, stderr=subprocess.STDOUT, text=True, timeout=timeout)
+        out, rc = p.stdout, p.returncode
+    except subprocess.TimeoutExpired as e:
+        out, rc = (e.stdout or "") + "\n(coqchk timed out)", 124
+    axioms, grab = [], False
+    for ln in out.splitlines():
+        if ln.strip().startswith("* Axioms:"):
+            grab = True
+            continue
+        if grab:
+            if ln.strip().startswith("*") or not ln.strip():
+                if ln.strip().startswith("*"):
+                    grab = False
+                continue
+            axioms.append(ln.strip())
+    return dict(ok=(rc == 0), cmd=" ".join(cmd), wall_s=round(time.time() - t0, 1), axioms=axioms, log_tail=out[-1500:])
+
+
 class Check:
     def __init__(self, prop_id, tier, seed):
         self.id = prop_id
@@ -284,6 +308,15 @@ class Check:
             self.cov["print_assumptions"] = res["assumptions"]
         self.cov["proof_files"] = res["files"]
         self.cov["trusted_base"] = tb
+        if res["ok"] and self.tier == "thorough":
+            ck = run_coqchk(self.id)
+            self.cov["coqchk"] = ck
+            tb.append("coqchk (independent checker) on TinyGP.Props.%s: %s; axioms reported for all loaded libraries: %s"
+                      % (self.id, "accepted" if ck["ok"] else "REJECTED", "; ".join(ck["axioms"]) or "none"))
+            if not ck["ok"]:
+                res["ok"] = False
+                res["failing_file"], res["failing_line"], res["failing_theorem"] = f"Props/{self.id}.vo", 0, "coqchk rejects the compiled proofs"
+                res["log"] = ck["log_tail"]
         if res["forbidden"]:
             self.violation("forbidden construct in proof development: " + ", ".join(res["forbidden"]),
                            {"kind": "proof-hygiene", "items": res["forbidden"]}, found_input=False)
